@@ -31,12 +31,27 @@ CONSTANTS MaxOps, ExemptOnlyTopLevel, ResetOnRedefinition,
                              \*       (FALSE, a seeded change: the mark is skipped when the extension returns an error)
           FuncArgsUnhashable,\* TRUE: a call with a function-valued argument is never stored (FALSE, a seeded change: functions
                              \*       are keyed by their text, so closures of one factory with different captures share an entry)
+          AbsentNameIsMiss,  \* TRUE: a call that looked a name up and found it nowhere is not stored (FALSE, pinned tree:
+                             \*       'f=func(){catch(y).err}' stays "true" after y is defined)
+          NewNameDropsCache, \* TRUE: defining a name that a stored call made a local of its own (no enclosing scope had it)
+                             \*       drops the cache (FALSE, pinned tree: 'f=func(){y=5;y}' no longer assigns the global y)
+          FunctionResultsNotStored, \* TRUE: a result that holds a function is never stored (FALSE, pinned tree: mk(0) twice
+                             \*       handed out one closure and its captured variable)
+          KeyKeepsGrouping,  \* TRUE: the key is a text that identifies the body (FALSE, pinned tree: the compact print,
+                             \*       in which a+(b+c) and a+b+c are the same text)
+          WorldExtensionsMarked, \* TRUE: every extension depending on the world is DontCache (FALSE, pinned tree: save, load,
+                             \*       sleep and the vector image functions were not)
+          GenKinds,          \* the call kinds used when behaviours are emitted for replay (GEN); all of Kinds when model checking
           EmitOn
 
 \* "wraplower" calls f_lower (which reads the global g); "inv" is x => 1/x called with 0.0 (a = 1) or -0.0 (a = 2)
 \* "catchlower" calls a function that reads g and FAILS when g = 0, and absorbs the error with catch()
 \* "catchgate" calls the impure extension vgate(), which FAILS on every odd call of the run, and absorbs the error with catch()
-Kinds == {"pure", "lower", "upper", "callee", "print", "error", "impure", "wraplower", "inv", "catchlower", "catchgate"}
+\* "absentread" asks whether the global y exists (catch(y).err); "absentwrite" assigns y = 5 (a local of its own while no y exists,
+\* the global afterwards); "groupl" / "groupr" are a + (1 + 2) and a + 1 + 2 applied to an array (append [3] / append 1 then 2);
+\* "world" wraps an extension whose effect depends on the world (counted by ticks, like "impure") but is not known to be impure
+Kinds == {"pure", "lower", "upper", "callee", "print", "error", "impure", "wraplower", "inv", "catchlower", "catchgate",
+          "absentread", "absentwrite", "groupl", "groupr", "world"}
 Caps  == {"lower", "upper", "func"}
 Args  == {1, 2}
 
@@ -45,12 +60,17 @@ VARIABLES g,      \* lower-case global read by f_lower
           hver,   \* version of the global function h called by f_callee (h(x) = x + hver)
           ticks,  \* state of the impure extension (vcount): number of calls so far
           cache,  \* set of [fn, arg, val, out]
+          ydef,   \* the global y exists
+          yval,   \* its value in the implementation (a hit skips the assignment of "absentwrite")
+          tyval,  \* its value without any cache
+          insts,  \* number of closures created by mk so far (each with its own captured counter)
+          assumed,\* some call made y a local of its own because no enclosing scope had it (what DefineY looks at)
           good,   \* every observation so far equalled the cache-free truth
           hist
-vars == <<g, cst, hver, ticks, cache, good, hist>>
-view == <<g, cst, hver, ticks, cache, good, Len(hist)>>
+vars == <<g, cst, hver, ticks, cache, ydef, yval, tyval, insts, assumed, good, hist>>
+view == <<g, cst, hver, ticks, cache, ydef, yval, tyval, insts, assumed, good, Len(hist)>>
 
-Init == g = 0 /\ cst = 10 /\ hver = 1 /\ ticks = 0 /\ cache = {} /\ good = TRUE /\ hist = <<>>
+Init == g = 0 /\ cst = 10 /\ hver = 1 /\ ticks = 0 /\ cache = {} /\ ydef = FALSE /\ yval = 0 /\ tyval = 0 /\ insts = 0 /\ assumed = FALSE /\ good = TRUE /\ hist = <<>>
 
 \* cache-free truth of f_kind(a): <<value, prints?>>; "err" for the failing function
 Truth(kind, a) ==
@@ -65,6 +85,11 @@ Truth(kind, a) ==
     [] kind = "catchlower" -> <<IF g = 0 THEN -1 ELSE a + g, FALSE>>
     [] kind = "catchgate" -> <<IF (ticks + 1) % 2 = 1 THEN -1 ELSE ticks + 1, FALSE>>
     [] kind = "inv"    -> <<IF a = 1 THEN 1000 ELSE -1000, FALSE>>   \* +Inf / -Inf
+    [] kind = "absentread"  -> <<IF ydef THEN 0 ELSE 1, FALSE>>
+    [] kind = "absentwrite" -> <<5 + a, FALSE>>
+    [] kind = "groupl" -> <<100 + a, FALSE>>      \* [a, 3]
+    [] kind = "groupr" -> <<200 + a, FALSE>>      \* [a, 1, 2]
+    [] kind = "world"  -> <<a + ticks + 1, FALSE>>
 
 \* does the implementation store the result of this call?
 Stored(kind) ==
@@ -77,11 +102,18 @@ Stored(kind) ==
     [] kind \in {"wraplower", "catchlower"} -> ~MissPropagates   \* also when the callee ended in an error
     [] kind = "catchgate" -> ~ImpureErrorIsMiss /\ (ticks + 1) % 2 = 1   \* stored only by the deviation, when vgate failed
     [] kind = "inv"    -> TRUE
+    [] kind = "absentread"  -> ~ydef /\ ~AbsentNameIsMiss    \* (once y exists it is a reference to a lower-case global: a miss)
+    [] kind = "absentwrite" -> ~ydef                          \* a local while no y exists; a write through a reference afterwards
+    [] kind \in {"groupl", "groupr"} -> TRUE
+    [] kind = "world"  -> ~WorldExtensionsMarked
+
+\* the key under which a function is stored: its text
+KeyOf(kind) == IF kind \in {"groupl", "groupr"} /\ ~KeyKeepsGrouping THEN "group" ELSE kind
 
 \* 0.0 and -0.0 are equal as cache keys (Go map key equality)
 SameKey(fn, a, b) == a = b \/ (fn = "inv" /\ ~ZeroSignDistinct)
 Lookup(fn, a) == IF fn = "inv" /\ a = 2 /\ ZeroSignDistinct THEN {}
-                 ELSE {e \in cache : e.fn = fn /\ SameKey(fn, e.arg, a)}
+                 ELSE {e \in cache : e.fn = KeyOf(fn) /\ SameKey(fn, e.arg, a)}
 
 Log(op) == hist' = Append(hist, op)
 
@@ -92,9 +124,13 @@ CallF(kind, a) ==
          obs == IF hit # {} THEN LET e == CHOOSE e \in hit : TRUE IN <<e.val, e.out>> ELSE t
      IN /\ good' = (good /\ obs = t)
         /\ cache' = IF hit = {} /\ Stored(kind) /\ ~(kind = "inv" /\ a = 2 /\ ZeroSignDistinct)
-                    THEN cache \cup {[fn |-> kind, arg |-> a, val |-> t[1], out |-> t[2]]} ELSE cache
-  /\ ticks' = IF kind = "impure" \/ (kind = "catchgate" /\ Lookup(kind, a) = {}) THEN ticks + 1 ELSE ticks   \* a hit does not run vgate()
-  /\ UNCHANGED <<g, cst, hver>>
+                    THEN cache \cup {[fn |-> KeyOf(kind), arg |-> a, val |-> t[1], out |-> t[2]]} ELSE cache
+  /\ ticks' = IF kind = "impure" \/ (kind \in {"catchgate", "world"} /\ Lookup(kind, a) = {}) THEN ticks + 1 ELSE ticks   \* a hit does not run the extension
+  \* "absentwrite" really run while y exists assigns the global
+  /\ tyval' = IF kind = "absentwrite" /\ ydef THEN 5 ELSE tyval
+  /\ yval' = IF kind = "absentwrite" /\ ydef /\ Lookup(kind, a) = {} THEN 5 ELSE yval
+  /\ assumed' = (assumed \/ (kind = "absentwrite" /\ ~ydef /\ Lookup(kind, a) = {}))
+  /\ UNCHANGED <<g, cst, hver, ydef, insts>>
   /\ Log([op |-> "call", kind |-> kind, a |-> a])
 
 (* mk_cap(v) builds a closure y => y + <captured v>; all closures of one cap have the same TEXT.
@@ -109,7 +145,7 @@ CallClosure(cap, v, a) ==
          obs == IF hit # {} THEN LET e == CHOOSE e \in hit : TRUE IN <<e.val, e.out>> ELSE t
      IN /\ good' = (good /\ obs = t)
         /\ cache' = IF hit = {} /\ st THEN cache \cup {[fn |-> fn, arg |-> a, val |-> t[1], out |-> t[2]]} ELSE cache
-  /\ UNCHANGED <<g, cst, hver, ticks>>
+  /\ UNCHANGED <<g, cst, hver, ticks, ydef, yval, tyval, insts, assumed>>
   /\ Log([op |-> "closure", cap |-> cap, v |-> v, a |-> a])
 
 (* box(mk(v))[0](0): a function that only STORES its function-valued argument; the stored closure is called afterwards.
@@ -121,21 +157,51 @@ CallBox(v) ==
          obs == IF hit # {} THEN LET e == CHOOSE e \in hit : TRUE IN <<e.val, e.out>> ELSE t
      IN /\ good' = (good /\ obs = t)
         /\ cache' = IF hit = {} /\ ~FuncArgsUnhashable THEN cache \cup {[fn |-> "box", arg |-> 0, val |-> v, out |-> FALSE]} ELSE cache
-  /\ UNCHANGED <<g, cst, hver, ticks>>
+  /\ UNCHANGED <<g, cst, hver, ticks, ydef, yval, tyval, insts, assumed>>
   /\ Log([op |-> "box", v |-> v])
+
+(* a = mk(n): mk returns a closure over a counter of its own call. Without a cache every call creates a new closure; a hit
+   hands out the closure of the stored call (observable as soon as one of the two is advanced). *)
+CallMk(n) ==
+  /\ Len(hist) < MaxOps
+  /\ LET hit == {e \in cache : e.fn = "mk" /\ e.arg = n}
+     IN /\ good' = (good /\ hit = {})
+        /\ insts' = IF hit = {} THEN insts + 1 ELSE insts
+        /\ cache' = IF hit = {} /\ ~FunctionResultsNotStored THEN cache \cup {[fn |-> "mk", arg |-> n, val |-> insts + 1, out |-> FALSE]} ELSE cache
+  /\ UNCHANGED <<g, cst, hver, ticks, ydef, yval, tyval, assumed>>
+  /\ Log([op |-> "mk", n |-> n])
+
+\* y = 1 at top level: the name exists from now on
+DefineY ==
+  /\ Len(hist) < MaxOps /\ ~ydef
+  /\ ydef' = TRUE /\ yval' = 1 /\ tyval' = 1
+  /\ cache' = IF NewNameDropsCache /\ assumed THEN {} ELSE cache     \* (only names some call relied on the absence of)
+  /\ assumed' = FALSE
+  /\ UNCHANGED <<g, cst, hver, ticks, insts, good>>
+  /\ Log([op |-> "definey"])
+
+\* println(y)
+ReadY ==
+  /\ Len(hist) < MaxOps /\ ydef
+  /\ good' = (good /\ yval = tyval)
+  /\ UNCHANGED <<g, cst, hver, ticks, cache, ydef, yval, tyval, insts, assumed>>
+  /\ Log([op |-> "ready"])
 
 Dropped == IF ResetOnRedefinition THEN {} ELSE cache
 
-MutateG   == Len(hist) < MaxOps /\ g' = 1 - g /\ UNCHANGED <<cst, hver, ticks, cache, good>> /\ Log([op |-> "mutate"])
-RedefH    == Len(hist) < MaxOps /\ hver' = 3 - hver /\ cache' = Dropped /\ UNCHANGED <<g, cst, ticks, good>> /\ Log([op |-> "redefh"])
+Rest == <<ydef, yval, tyval, insts, assumed>>
+MutateG   == Len(hist) < MaxOps /\ g' = 1 - g /\ UNCHANGED <<cst, hver, ticks, cache, good, Rest>> /\ Log([op |-> "mutate"])
+RedefH    == Len(hist) < MaxOps /\ hver' = 3 - hver /\ cache' = Dropped /\ UNCHANGED <<g, cst, ticks, good, Rest>> /\ Log([op |-> "redefh"])
 \* the same redefinition made from inside a function that never read h before (first write through a new reference)
-RedefHInside == Len(hist) < MaxOps /\ hver' = 3 - hver /\ cache' = Dropped /\ UNCHANGED <<g, cst, ticks, good>> /\ Log([op |-> "redefhinside"])
-RedefConst == Len(hist) < MaxOps /\ cst' = 30 - cst /\ cache' = Dropped /\ UNCHANGED <<g, hver, ticks, good>> /\ Log([op |-> "redefconst"])
+RedefHInside == Len(hist) < MaxOps /\ hver' = 3 - hver /\ cache' = Dropped /\ UNCHANGED <<g, cst, ticks, good, Rest>> /\ Log([op |-> "redefhinside"])
+RedefConst == Len(hist) < MaxOps /\ cst' = 30 - cst /\ cache' = Dropped /\ UNCHANGED <<g, hver, ticks, good, Rest>> /\ Log([op |-> "redefconst"])
 
 Emit == EmitOn => EmitLine(ToJson([h |-> hist']))
 
 Next ==
-  /\ \/ \E k \in Kinds, a \in Args : CallF(k, a)
+  /\ \/ \E k \in (IF EmitOn THEN GenKinds ELSE Kinds), a \in Args : CallF(k, a)
+     \/ \E n \in {0} : CallMk(n)
+     \/ DefineY \/ ReadY
      \/ \E c \in Caps, v \in {1, 2}, a \in {1} : CallClosure(c, v, a)
      \/ \E v \in {1, 2} : CallBox(v)
      \/ MutateG \/ RedefH \/ RedefHInside \/ RedefConst
@@ -146,5 +212,5 @@ Spec == Init /\ [][Next]_vars
 ObsCorrect == good
 \* a stored entry is what re-running the call now would produce (the stronger, state-based form)
 HitSound == \A e \in cache :
-              IF e.fn \in Kinds \ {"inv", "catchgate"} THEN <<e.val, e.out>> = Truth(e.fn, e.arg) ELSE TRUE
+              IF e.fn \in Kinds \ {"inv", "catchgate", "absentwrite"} THEN <<e.val, e.out>> = Truth(e.fn, e.arg) ELSE TRUE
 =============================================================================
